@@ -149,6 +149,22 @@ def run(prog: Program, roots=None, prop="C08") -> Results:
         for _f in _sub.findings:
             if _f.rule == "R-C09-2":
                 res.add("R-C08-5", _f.key, _f.where, _f.message)
+        from sa import lints
+        r8 = res.rule("R-C08-8", "no latent NameError / AttributeError / TypeError in the edit closure (unbound names, undefined "
+                      "`self` attributes, calls that do not fit the callee's signature)", floor=40)
+        for k in sorted(closure):
+            f = prog.funcs.get(k)
+            if f is None:
+                continue
+            for g in [f] + list(f.nested.values()):
+                r8.instances += 1
+                probs = [(x, "name is not bound anywhere", x.id) for x in lints.undefined_names(prog, g)]
+                probs += [(x, "attribute is not defined by the class", x.attr) for x in lints.unknown_self_attributes(prog, g)]
+                probs += [(c, why, norm(c.func)[:30]) for c, why in lints.signature_mismatches(prog, g)]
+                r8.ob(not probs, None if not probs else {"site": g.key, "problems": [p_[1] for p_ in probs][:3]})
+                for node, why, what in probs:
+                    res.add("R-C08-8", (g.key, why[:60], what), g.loc(node),
+                            f"{g.key}: `{norm(node)[:60]}` — {why}: an exception other than KeyError/ValueError would leave set/rm")
         from sa.defassign import maybe_unbound
         r7 = res.rule("R-C08-7", "no implicit UnboundLocalError in the edit closure: every read of a local is preceded by an assignment "
                       "on every path (only KeyError/ValueError may leave a rejected edit)", floor=40)
